@@ -53,3 +53,34 @@ def sanitizer_phase(prop, pl, tier, v, seed, ev):
                     viols.append({"kind": "valgrind", "property": prop, "machine": m, "config": c, "rc": rc, "report": err[-3000:],
                                   "script": [l for ex in scripts[:40] for l in ex]})
     return viols
+
+def puml_tokenizer_phase(prop, pl, tier, v, seed, ev):
+    """C14: every line of the documented PlantUML transition grammar (enumerated by TLC from spec/Puml.tla) is split by
+    detail::parse_row / count_actions / parse_action / parse_stt / parse_inits into exactly the intended fields."""
+    import shutil, tlc
+    viols = []
+    wd = os.path.join(v.dir, "puml"); os.makedirs(wd, exist_ok=True)
+    cfgname = "Puml_quick.cfg" if tier == "quick" else "Puml_thorough.cfg"
+    shutil.copy(os.path.join(core.VERIF, "spec", "Puml.tla"), wd); shutil.copy(os.path.join(core.VERIF, "puml", cfgname), wd)
+    r = subprocess.run(["timeout", "3000", "java", "-Xmx8g", "-cp", tlc.JAR + ":" + tlc.CM, "tlc2.TLC", "-workers", "1", "-config", cfgname, "Puml.tla"],
+                       cwd=wd, capture_output=True, text=True)
+    st = tlc.parse_stats(r.stdout)
+    if r.returncode != 0 or "distinct" not in st:
+        raise core.ToolError("TLC failed on Puml.tla:\n" + r.stdout[-2000:])
+    recs = sorted(set(l[1:-1] for l in r.stdout.splitlines() if l.startswith('"L#')))
+    open(os.path.join(wd, "recs.txt"), "w").write("\n".join(recs) + "\n")
+    exe = os.path.join(wd, "puml_tok")
+    env = dict(os.environ); env["CCACHE_DIR"] = os.path.join(core.VERIF, ".ccache")
+    c = subprocess.run(["ccache", "g++", "-std=c++20", "-O1", "-w", "-I" + core.REPO_INC, "-o", exe, os.path.join(core.VERIF, "puml", "puml_tok.cpp")],
+                       capture_output=True, text=True, env=env)
+    if c.returncode != 0:
+        raise core.ToolError("puml_tok.cpp does not compile:\n" + c.stderr[-2000:])
+    t = subprocess.run([exe, os.path.join(wd, "recs.txt")], capture_output=True, text=True, timeout=1800)
+    ev.setdefault("aux", {})["puml_tokenizer"] = {"tlc_distinct_states": st["distinct"], "lines": len(recs), "result": t.stdout.strip().splitlines()[-1] if t.stdout.strip() else ""}
+    ev["states"] += st["distinct"]; ev["transitions"] += st["generated"]
+    ev["samples"].append({"puml_line": recs[len(recs) // 2]})
+    if t.returncode == 1:
+        viols.append({"kind": "tokenizer", "property": prop, "machine": "puml grammar", "config": cfgname, "report": t.stdout[-3000:], "script": []})
+    elif t.returncode != 0:
+        raise core.ToolError("puml_tok failed: rc=%d %s" % (t.returncode, t.stderr[-500:]))
+    return viols
